@@ -28,6 +28,8 @@ Ops ==
         O("del", AnyName, "", ""), O("subclass", "", "", "")}
   \cup (IF HasElab THEN {O("elab", "", "", "")} ELSE {})
   \cup {O("get", n, "", "") : n \in Names}
+  \cup {O("setattr", n, k, "mul") : n \in Names, k \in Kinds \cap {"signal", "port"}}     \* values copied from another object by multiplication
+  \cup (IF IsModule THEN {O("extfromports", "", "", "")} ELSE {})
 
 (* the intended insertion algorithm on an implementation-shaped state: evict, then insert *)
 Insert(I, n, k, id) ==
@@ -47,7 +49,8 @@ Step(o) ==
 
 ReAdd == {O("readd", n, "", m) : n \in DOMAIN s.ns, m \in {"set", "add"}}
 Alias == UNION {{O("alias", n, "", src) : src \in (DOMAIN s.ns) \ {n}} : n \in Names}
-Next == Len(hist) < Depth /\ \E o \in Ops \cup ReAdd \cup Alias : Step(o)
+MulInst == IF IsModule THEN UNION {{O("mulinst", n, "", src) : src \in {x \in DOMAIN s.ns : s.ns[x].kind = "inst"}} : n \in Names} ELSE {}
+Next == Len(hist) < Depth /\ \E o \in Ops \cup ReAdd \cup Alias \cup MulInst : Step(o)
 Spec == Init /\ [][Next]_vars
 
 Emit == IF Len(hist') = Depth THEN PrintT(<<"CASE", ToJson(hist')>>) ELSE TRUE
